@@ -113,6 +113,7 @@ Proof.
   intros U D a b k Ha Hb Ka Kb. destruct Ha as [<-|Ha], Hb as [<-|Hb]; auto.
   - exfalso. exact (D b k Hb Ka Kb).
   - exfalso. exact (D a k Ha Kb Ka).
+  - eapply U; eauto.
 Qed.
 
 Lemma sites_uniq :
@@ -125,15 +126,15 @@ Proof.
     + eapply uniq_app; [apply IHb|apply IHe|apply Wb| |].
       * intros y Hy. destruct (We els _ y Hy) as (W & _). exact W.
       * lia.
-    + intros y k Hy Kx Ky. cbn [keys s_end s_mids] in Kx. apply in_app_or in Hy. destruct Hy as [Hy|Hy].
+    + intros y k Hy Kx Ky. unfold keys at 1 in Kx. cbn [s_end s_mids] in Kx. apply in_app_or in Hy. destruct Hy as [Hy|Hy].
       * destruct (Wb b (S p) y Hy) as (A & B & C). specialize (C k Ky).
         destruct Kx as [<-|Kx]; [lia|]. apply gmid_pos_range in Kx. lia.
       * destruct (We els _ y Hy) as ((A & B & C) & N). specialize (C k Ky).
         destruct Kx as [<-|Kx]; [lia|]. exact (N k Ky Kx).
   - intros sp c b IHb e p. cbn [sites_s]. apply uniq_cons; [apply IHb|].
-    intros y k Hy [<-|[]] Ky. destruct (Wb b (S p) y Hy) as (A & B & C). specialize (C _ Ky). lia.
+    intros y k Hy [<-|[]] Ky. destruct (Wb b (S p) y Hy) as (A & B & C). specialize (C _ Ky). cbn [s_end] in C. lia.
   - intros sp x hv b IHb e p. cbn [sites_s]. apply uniq_cons; [apply IHb|].
-    intros y k Hy [<-|[]] Ky. destruct (Wb b (S p) y Hy) as (A & B & C). specialize (C _ Ky). lia.
+    intros y k Hy [<-|[]] Ky. destruct (Wb b (S p) y Hy) as (A & B & C). specialize (C _ Ky). cbn [s_end] in C. lia.
   - intros out f args p x y k H. contradiction.
   - intros sp a p x y k H. contradiction.
   - intros p x y k H. contradiction.
@@ -171,7 +172,7 @@ Proof.
   eapply (uniq_app _ _ s0 (s0 + length (gdef d)) (s0 + length (gdef d)) (s0 + length (gdef d) + length (gdefs r)));
     [|apply IH| |apply def_sites_within|lia].
   - apply uniq_cons; [apply Ub|]. intros y k Hy [<-|[]] Ky.
-    destruct (Wb _ _ y Hy) as (A & B & C). specialize (C _ Ky). cbn [s_end]. unfold d_end. lia.
+    cbn [s_end] in Ky. destruct (Wb _ _ y Hy) as (A & B & C). specialize (C _ Ky). unfold d_end in C. lia.
   - rewrite gdef_length. intros x [<-|H].
     + unfold within, d_end, keys. cbn [s_start s_end s_mids In]. split; [lia|]. split; [lia|]. intros k [<-|[]]. lia.
     + eapply within_weaken; [| |apply (Wb _ _ x H)]; lia.
